@@ -5,7 +5,7 @@ set -u
 D="$1"; W=/tmp/confirm
 [ -d $W ] || git -C /repo worktree add --detach $W HEAD >/dev/null 2>&1
 git -C $W checkout -q -- . ; git -C $W clean -fdq -e target; git -C $W checkout -q --detach "$(git -C /repo rev-parse HEAD)"
-place=$(head -n 1 "$D/demo.rs" | sed -n 's#^// *[Pp]lace at \([^ ;]*\).*#\1#p')
+place=$(head -n 1 "$D/demo.rs" | sed -n 's#^// *[Pp]lace at:\{0,1\} *\([^ ;]*\).*#\1#p')
 crate=${place%%/*}; name=$(basename "$place" .rs)
 crates=$(python3 -c "import json;print(' '.join(sorted({'-p '+f.split('/')[0] for f in json.load(open('$D/meta.json'))['files_touched']})))")
 res() { echo "$1" >> "$D/confirm.txt"; echo "$1"; }
